@@ -44,16 +44,29 @@ package http1
 // HTTP/1.0 peer must be told when the connection stays open, otherwise it waits for the close to end the response)
 //@ ghost var is11 bool
 //@ ghost var kaSet bool
+// bsChecked/bsIs/relDone (C14): after the response was written the loop asked whether the request body is a stream and,
+// if so, released it (drained what the handler left unread) without error - before the connection is used for the
+// next request in this loop or handed back to the transport for it (a nil return).
+//@ ghost var bsChecked bool
+//@ ghost var bsIs bool
+//@ ghost var relDone bool
 //@ ghost var mayCont bool
 //@ ghost var contDone bool
 
 //@ func Server.Serve(s, c, conn) err
-//@   props C19, C18, C01, C03, C04
-//@   requires phase == 0 && !rejecting && !closeSet && !notRunningSeen && !runningChecked && !wantClose && !headChecked && !mayCont && !contDone && !kaSet
+//@   props C19, C18, C01, C03, C04, C14
+//@   requires phase == 0 && !rejecting && !closeSet && !notRunningSeen && !runningChecked && !wantClose && !headChecked && !mayCont && !contDone && !kaSet && !bsChecked && !relDone
 //@   ghostset after RequestHeader.IsHTTP11: is11 = result
 //@   ghostset after ResponseHeader.SetCanonical: kaSet = kaSet || sameSlice(arg2, bytestr.StrKeepAlive)
 //@   assert @C04 before writeResponse: !rejecting && !is11 && !closeSet ==> kaSet
 //@   ghostset after ResetWithoutConn: kaSet = false
+//@   ghostset after Request.IsBodyStream: bsChecked = (phase == 3)
+//@   ghostset after Request.IsBodyStream: bsIs = result
+//@   ghostset after ReleaseBodyStream: relDone = (result == nil)
+//@   assert @C14 before ResetWithoutConn: bsChecked && (!bsIs || relDone)
+//@   top-ensures @C14 phase == 3 && err == nil ==> bsChecked && (!bsIs || relDone)
+//@   ghostset after ResetWithoutConn: bsChecked = false
+//@   ghostset after ResetWithoutConn: relDone = false
 //@   ghostset after Request.MayContinue: mayCont = result
 //@   ghostset after ContinueReadBody: contDone = true
 //@   ghostset after ContinueReadBodyStream: contDone = true
@@ -102,7 +115,7 @@ package http1
 //@   top-ensures traceOpen == 0
 //@   loop 0:
 //@     invariant traceOpen == 0 && evDepth == 0 && !traceStarted
-//@     invariant phase == 0 && !rejecting && !closeSet && !wantClose && !headChecked && !mayCont && !contDone && !kaSet
+//@     invariant phase == 0 && !rejecting && !closeSet && !wantClose && !headChecked && !mayCont && !contDone && !kaSet && !bsChecked && !relDone
 //@     invariant @C18 !notRunningSeen && !runningChecked
 
 //@ func Server.Serve$1()
